@@ -257,22 +257,37 @@ def cells():
     cell("observe-add-fire-remove", observe_cycle)
 
     def remove_during_dispatch(o, S):
-        # anytrait handlers only; an earlier handler removes a later one
-        # while the notification is being delivered
+        # anytrait handlers only (no notifier on the trait itself); an
+        # earlier handler unregisters a later one while the notification is
+        # being delivered and nothing else keeps the removed handler alive:
+        # the dispatcher's private copy of the notifier list must
+        import weakref
         x = O()
-        calls = []
+        token = Sentinel("token")
+        token_ref = weakref.ref(token)
 
-        def late(obj, name, old, new):
-            calls.append(name)
+        def make_late(token):
+            def late():
+                token.tag
+            return late
+        handlers = {"late": make_late(token)}
+        del token
+        state = {}
 
-        def early(obj, name, old, new):
-            x.on_trait_change(late, remove=True)
+        def early():
+            victim = handlers.pop("late", None)
+            if victim is not None:
+                x.on_trait_change(victim, remove=True)
+                del victim
+                gc.collect()
+                state["freed"] = token_ref() is None
         x.on_trait_change(early)
-        x.on_trait_change(late)
-        del late
-        gc.collect()
+        x.on_trait_change(handlers["late"])
         x.a = S
         x.a = None
+        if state.get("freed"):
+            raise AssertionError("a notifier removed during dispatch was "
+                                 "freed while the dispatch was running")
     cell("handler-removes-later-handler", remove_during_dispatch)
 
     def add_during_dispatch(o, S):
